@@ -277,7 +277,10 @@ func (m *UDPMuxDefault) RemoveConnByUfrag(ufrag string) {
 	for _, c := range removedConns {
 		addresses := c.getAddresses()
 		for _, addr := range addresses {
-			delete(m.addressMap, addr)
+			// An address c was about to take over may still belong to another connection.
+			if m.addressMap[addr] == c {
+				delete(m.addressMap, addr)
+			}
 		}
 	}
 }
@@ -520,8 +523,9 @@ func (m *UDPMuxDefault) registerConnForAddress(conn *udpMuxedConn, addr netip.Ad
 		return
 	}
 
+	// (Concurrent first writes of conn itself get here more than once: conn keeps its address.)
 	existing, ok := m.addressMap[addr]
-	if ok {
+	if ok && existing != conn {
 		existing.removeAddress(addr)
 	}
 	m.addressMap[addr] = conn
